@@ -45,11 +45,16 @@ CelFacts(ps, f, l, dig) ==
 CelFactFields == {"f", "l", "empty", "x", "y", "tilemap"}
 \* rendered: FALSE for canvases beyond the harness' pixel budget (nothing is rendered, images and digests are absent)
 CelEntryFailing(ps, e, rendered) ==
-  LET exp == CelFacts(ps, e.f, e.l, "") IN
+  LET exp == CelFacts(ps, e.f, e.l, "")
+      imgOk == rendered => e.image = [w |-> W(ps), h |-> H(ps), px |-> CelImage(ps, e.f, e.l)]
+  IN
   Chk("cel.routes_agree", e.r1 = e.r2 /\ e.r1 = e.r3)
   \cup Chk("cel.facts", Restrict(e.r1, CelFactFields) = Restrict(exp, CelFactFields))
   \cup Chk("user_data.cel", e.r1.ud = exp.ud)
-  \cup Chk("cel.image", rendered => e.image = [w |-> W(ps), h |-> H(ps), px |-> CelImage(ps, e.f, e.l)])
+  \cup Chk("cel.image", imgOk)
+  \* C08: the image of a tilemap cel is the composition of its tiles (named separately so that it reaches C08 as well;
+  \* `tilemap.image_is_cel_image` ties Tilemap::image to this image)
+  \cup Chk("tilemap.image", exp.tilemap => imgOk)
   \cup Chk("cel.tilemap_some", e.tm = TilemapSome(ps, e.l, e.f))
 
 CelDig(obs, f, l) == LET S == {i \in DOMAIN obs.cels : obs.cels[i].f = f /\ obs.cels[i].l = l}
@@ -109,9 +114,9 @@ Failing(ps, obs) ==
   \cup Chk("frame_ids", obs.frame_ids = Idx0(nf))
   \cup Chk("layers", /\ Len(obs.layers) = nl
                      /\ \A i \in 1..nl : Restrict(obs.layers[i], LayerAttr) = Restrict(LayerObs(ps, i - 1), LayerAttr))
-  \cup Chk("parents", Len(obs.layers) = nl /\ \A i \in 1..nl : obs.layers[i].parent = Parent(ps, i - 1))
+  \cup Chk("parents", Len(obs.layers) = nl /\ LET par == ParentVec(ps) IN \A i \in 1..nl : obs.layers[i].parent = par[i])
   \cup Chk("user_data.layer", Len(obs.layers) = nl /\ \A i \in 1..nl : obs.layers[i].ud = ps.layers[i].ud)
-  \cup Chk("visible", obs.visible = [i \in 1..nl |-> Visible(ps, i - 1)])
+  \cup Chk("visible", obs.visible = VisibleVec(ps))
   \cup Chk("layers_iter", obs.iter_ids = Idx0(nl))
   \cup Chk("layer_by_name", /\ \A k \in DOMAIN obs.by_name : obs.by_name[k].hit = FirstMatch(names, obs.by_name[k].q)
                             /\ Small(nl) => Range(names) \subseteq {obs.by_name[k].q : k \in DOMAIN obs.by_name})
